@@ -69,8 +69,11 @@ type c19Sys struct {
 	mask    int
 }
 
-func (s *c19Sys) NumEvents() int { return 3 * s.n }
+func (s *c19Sys) NumEvents() int { return 3*s.n + 1 }
 func (s *c19Sys) Enabled(ev int) bool {
+	if ev == 3*s.n {
+		return s.reloads
+	}
 	if ev >= s.n && ev < 2*s.n {
 		return s.ping != "" && s.origins[ev-s.n].up // HTTP-level sickness is only observable by an HTTP health check
 	}
@@ -81,6 +84,8 @@ func (s *c19Sys) Enabled(ev int) bool {
 }
 func (s *c19Sys) EventName(ev int) string {
 	switch {
+	case ev == 3*s.n:
+		return "reload the unchanged configuration"
 	case ev < s.n:
 		return fmt.Sprintf("toggle server %d up/down", ev)
 	case ev < 2*s.n:
@@ -150,7 +155,13 @@ func (s *c19Sys) Key() string {
 }
 
 func (s *c19Sys) Apply(ev int) (string, string, string) {
-	if ev >= 2*s.n {
+	if ev == 3*s.n {
+		// what a save of any unrelated setting does: the same configuration applied again
+		if err := env.Apply(s.cfg); err != nil {
+			return "", "apply-error", err.Error()
+		}
+		s.e.RebindServersOnly()
+	} else if ev >= 2*s.n {
 		// reload: same servers, one backup flag flipped, applied with main.update()'s call sequence
 		i := ev - 2*s.n
 		s.mask ^= 1 << uint(i)
